@@ -165,6 +165,7 @@ PROPS = {
         ],
         "legs": [
             native("c11_histograms", ["secs=8"], ["secs=100"]),
+            miri("c11_histograms", 4, 16, [0, 1], [0, 1, 2, 3]),
             native("c11_histograms", t=["secs=30", "lanes=3"], name="tsan", flavour="tsan", tiers=("thorough",)),
         ],
     },
